@@ -104,7 +104,22 @@ def _tt_caps(shape):
     return caps
 
 
+def _unit_scale(X):
+    """Multiply by an exact power of two so that 1 <= |X| < 2 (bit-exact rescaling: ranks and relative spectrum are
+    untouched).  The products of table values in the low-rank families would otherwise have norms down to 1e-4, where
+    symeig_svd's *absolute* eigenvalue clip (eps) dominates; scale robustness of the SVD backends is not part of C09."""
+    nrm = frob(X)
+    if nrm == 0 or not np.isfinite(nrm):
+        return X
+    return X * 2.0 ** (-int(np.floor(np.log2(nrm))))
+
+
 def make_tensor(shape, fam, off):
+    X = _make_tensor(shape, fam, off)
+    return _unit_scale(X) if fam in ("lowtucker", "lowtt") else X
+
+
+def _make_tensor(shape, fam, off):
     shape = tuple(int(s) for s in shape)
     d = len(shape)
     if fam == "generic":
